@@ -3,6 +3,7 @@ package harness
 import (
 	"fmt"
 	"math/big"
+	"strings"
 )
 
 // AxisCase: a description whose first mapping holds the axes under test, and a history of axis
@@ -49,14 +50,15 @@ func checkC06(c AxisCase) (bool, *Violation) {
 			states = map[string]*c06axisState{}
 		}
 		m := &c.D.Mappings[curMap]
-		a := axisByCode(m, ws.Step.Sub, ws.Step.Code)
+		a := axisOfStep(c.D, m, ws.Step)
 		if a == nil {
 			continue
 		}
 		dz := effectiveDeadzone(m, a)
 		sh := exactShape(a, dz, ws.Step.Val)
 		raw := ws.Step.Val
-		ak := a.Sub + "|" + fmt.Sprint(a.Code)
+		ak := ws.Step.SK() + "|" + fmt.Sprint(a.Code)
+		classifyIf(ws.Step.Node == 1, "events of a second event node with the same name and another range")
 		st := states[ak]
 		if st == nil {
 			st = &c06axisState{}
@@ -418,17 +420,41 @@ func checkC08(c AxisCase) (bool, *Violation) {
 	if v != nil {
 		return false, v
 	}
-	m := &c.D.Mappings[0]
 	rx := NewReceiver()
 	dirs := map[string]*[2]c08dir{} // [0] positive, [1] negative
 	lastPre := map[string]*big.Rat{}
 	nontrivial := false
+	actionOf := map[uint16]string{}
+	for _, a := range c.D.Actions {
+		actionOf[a.Code] = a.Action
+	}
 	for i := range w.Steps {
 		ws := &w.Steps[i]
+		// the axes mean what the mapping that is active now says (the mappings of one case shape the positions alike and
+		// differ in the notes, in which directions have one, and in the channel offsets)
+		m := &c.D.Mappings[ws.Pre.Mapping]
 		if ws.Step.T == "key" {
-			if len(ws.Res.Out) != 0 {
-				return true, violation("C08", "action-emits", "", "step %d: an octave/semitone/channel action emitted %s", i, fmtMsgs(ws.Res.Out))
+			isMapping := strings.HasPrefix(actionOf[ws.Step.Code], "mapping_")
+			for _, msg := range ws.Res.Out {
+				// a mapping change may release what the axes have sounding (nothing says when exactly the old mapping's note
+				// ends once its mapping is gone, only that it ends by the time the stick is back); nothing else may be emitted
+				released := false
+				if isMapping && isNoteOff(msg) {
+					for _, dd := range dirs {
+						for k := 0; k < 2; k++ {
+							if !released && dd[k].sent != nil && int(msg[0]&0x0f) == dd[k].sent.Ch && int(msg[1]) == dd[k].sent.Pitch {
+								dd[k] = c08dir{on: true, pending: true}
+								released = true
+							}
+						}
+					}
+				}
+				if !released {
+					return true, violation("C08", "action-emits", "", "step %d: an octave/semitone/channel/mapping action emitted %s", i, fmtMsgs(ws.Res.Out))
+				}
+				rx.Feed(msg)
 			}
+			classifyIf(isMapping && ws.Step.Val == 1, "mapping change between the positions")
 			continue
 		}
 		if ws.Step.T != "abs" {
@@ -579,9 +605,10 @@ func checkC08(c AxisCase) (bool, *Violation) {
 						d[k].sent = &heldNote{hn.Ch, hn.Pitch}
 						classifyIf(ws.Pre.Octave != c.D.Octave || ws.Pre.Semitone != c.D.Semitone || ws.Pre.Channel != c.D.Channel-1, "note on under changed transposition/channel")
 					}
-				case d[k].on && want[k] && d[k].pending && notes[k] != nil && inRange:
-					// the pitch was out of range when the threshold was crossed: sounding it on a later event of
-					// the same excursion is permitted, not required
+				case d[k].on && want[k] && (d[k].pending || d[k].sent == nil) && notes[k] != nil && inRange:
+					// the pitch was out of range when the threshold was crossed, or the direction got its note only now (the
+					// mapping changed during the excursion): sounding it on a later event of the same excursion is permitted,
+					// not required
 					if take(ons, onUsed, hn) {
 						d[k].pending = false
 						d[k].sent = &heldNote{hn.Ch, hn.Pitch}
